@@ -11,3 +11,10 @@ check("C02",
   "For every formula shape of the documented language within the size bound, the real Resolver and the operator overloads of Intercept/NegatedIntercept/Term/GroupSpecificTerm/Response/Model run on ASTs whose variable names are solver variables; each == between names is a z3-decided fork, so one path covers every naming with that aliasing pattern. The resulting response, common-term set and group-term set must equal the reference Wilkinson-Rogers/lme4 expansion; an exception for an in-language formula is a violation. Exhaustive within the stated bounds.",
   "Trusted: the reference algebra (ref_T/ref_chain in vf/props/c02.py) written from the statement; z3. Scanner/Parser are bypassed (C01 covers them). One known finding (effect-side removal literal after a sum) is listed in known_findings.json.",
   "DESIGN.md section 4 C02")
+
+check("C04",
+  "symbolic execution of the real design_matrices pipeline on z3-real numeric cells (complete-factorial frames), entry == LabelMeaning(label) discharged by z3",
+  "model_checking",
+  "For every generated (formula, categorical flavour, row order) the real pipeline runs once on a complete-factorial frame whose numeric cells are z3 reals; every entry of the common, group-specific and categorical-response matrices must equal, as a polynomial identity decided by z3, the meaning of its column label (indicator products times numeric cells, e|g[l] blocks); label count, uniqueness and sorted/declared level order are checked on the same run. One run covers every frame with those level sets and any numeric values.",
+  "Trusted: LabelMeaning oracle (vf/gen.py), z3, the three stubs listed in evidence (is_numeric_dtype for Sym columns, numpy shim in formulae.transforms, logging). Formulas/flavours/orders are enumerated, not symbolic. Reals, not floats.",
+  "DESIGN.md section 4 C04")
